@@ -21,8 +21,8 @@ def AboveRegion (cfg : Cfg) : St → View → Screen → List Op → Prop
     (op ≠ .stop → AboveRegion cfg (step cfg noFault st op).st (viewStep cfg st v op)
       (replay cfg.height s (step cfg noFault st op).out) rest)
 
-theorem history_main {cfg : Cfg} (hc : cfg.plain = true) (hb : cfg.bareBypass = false) (hH : 1 ≤ cfg.height) (ops : List Op) :
-    ∀ (st : St) (v : View) (s : Screen), Good cfg st v s → wfOps cfg st ops = true →
+theorem history_main {cfg : Cfg} (hc : cfg.plain = true) (hb : cfg.bareBypass = false) (hflush : cfg.flushFix = true) (hH : 1 ≤ cfg.height) (ops : List Op) :
+    ∀ (st : St) (v : View) (s : Screen), Good cfg st v s → BufOk st → wfOps cfg st ops = true →
       (∃ k, (replay cfg.height s (run cfg noFault st ops).2.1).rows =
         ((specRun cfg st v ops).2.printed ++ (specRun cfg st v ops).2.frame).map (cells cfg.cw) ++ List.replicate k []) ∧
       AboveRegion cfg st v s ops ∧
@@ -30,23 +30,25 @@ theorem history_main {cfg : Cfg} (hc : cfg.plain = true) (hb : cfg.bareBypass = 
         (replay cfg.height s (run cfg noFault st ops).2.1).visible = true) := by
   induction ops with
   | nil =>
-    intro st v s g _
+    intro st v s g _ _
     obtain ⟨k, hs, _⟩ := g.shown
     refine ⟨by simpa [run, specRun, replay_nil] using shown_rows hs, trivial, ?_⟩
     intro pre h; cases pre <;> simp at h
   | cons op rest ih =>
-    intro st v s g hwf
+    intro st v s g hbuf hwf
     by_cases hop : op = .stop
     · subst hop
       simp only [wfOps, if_true, Bool.and_eq_true, List.isEmpty_iff] at hwf
-      obtain ⟨⟨⟨⟨hrest, _⟩, hbo⟩, hbe⟩, hfit⟩ := hwf
+      obtain ⟨⟨⟨hrest, _⟩, hff⟩, hfit⟩ := hwf
       subst hrest
+      have hff' : st.started = true → flushFits cfg st = true := by
+        intro h1; simpa [h1] using hff
       have hfit' : st.started = true → cfg.transient = true →
             restoreCount cfg.blankFix (stopFrame cfg st).length + 1 ≤ cfg.height := by
         intro h1 h2
         simp [h1, h2] at hfit
         exact hfit
-      obtain ⟨s', hrun, hrows, hvis⟩ := good_stop hc hH g hbo hbe hfit'
+      obtain ⟨s', hrun, hrows, hvis⟩ := good_stop hc hH hflush g hbuf hff' hfit'
       have eout : (run cfg noFault st [Op.stop]).2.1 = (doStop cfg noFault st).out := by
         rw [run_cons_out]; simp [run, step]
       refine ⟨?_, ⟨?_, fun h => absurd rfl h⟩, ?_⟩
@@ -68,7 +70,7 @@ theorem history_main {cfg : Cfg} (hc : cfg.plain = true) (hb : cfg.bareBypass = 
       have hfit' : redraws cfg st op = true → (shown cfg (step cfg noFault st op).st).length ≤ cfg.height := by
         intro h; simp [h] at hfit; exact hfit
       obtain ⟨s', hrun, hg⟩ := good_step hc hb hH g op hop happ herr' hfit'
-      obtain ⟨hrows, habove, hvis⟩ := ih _ _ _ hg hwfr
+      obtain ⟨hrows, habove, hvis⟩ := ih _ _ _ hg (bufOk_step cfg noFault st op hop herr' hbuf) hwfr
       refine ⟨?_, ⟨hrun.2, fun _ => by rw [hrun.1]; exact habove⟩, ?_⟩
       · rw [run_cons_out, replay_append, hrun.1]
         simpa [specRun, hop] using hrows
@@ -97,21 +99,21 @@ def AboveRegionM (cfg : Cfg) : St → View → Screen → List Op → Prop
       (replay cfg.height s (step cfg noFault st op).out) rest
 
 /-- Invariant carried through a history with any number of sessions (repaired `stop`). -/
-theorem history_multi {cfg : Cfg} (hc : cfg.plain = true) (hb : cfg.bareBypass = false) (hreset : cfg.resetShape = true)
+theorem history_multi {cfg : Cfg} (hc : cfg.plain = true) (hb : cfg.bareBypass = false) (hflush : cfg.flushFix = true) (hreset : cfg.resetShape = true)
     (hH : 1 ≤ cfg.height) (ops : List Op) :
-    ∀ (st : St) (v : View) (s : Screen), Good cfg st v s → wfOpsM cfg st ops = true →
+    ∀ (st : St) (v : View) (s : Screen), Good cfg st v s → BufOk st → wfOpsM cfg st ops = true →
       Good cfg (specRunM cfg st v ops).1 (specRunM cfg st v ops).2
         (replay cfg.height s (run cfg noFault st ops).2.1) ∧
       (specRunM cfg st v ops).1 = (run cfg noFault st ops).1 ∧
       AboveRegionM cfg st v s ops := by
   induction ops with
-  | nil => intro st v s g _; exact ⟨by simpa [run, specRunM, replay_nil] using g, rfl, trivial⟩
+  | nil => intro st v s g _ _; exact ⟨by simpa [run, specRunM, replay_nil] using g, rfl, trivial⟩
   | cons op rest ih =>
-    intro st v s g hwf
+    intro st v s g hbuf hwf
     simp only [wfOpsM, Bool.and_eq_true] at hwf
     obtain ⟨hop, hwfr⟩ := hwf
     have hstep : ∃ s', Run cfg.height v.printed.length s (step cfg noFault st op).out s' ∧
-        Good cfg (step cfg noFault st op).st (viewStepM cfg st v op) s' := by
+        Good cfg (step cfg noFault st op).st (viewStepM cfg st v op) s' ∧ BufOk (step cfg noFault st op).st := by
       by_cases hstop : op = .stop
       · subst hstop
         simp only [if_true, Bool.and_eq_true, List.isEmpty_iff] at hop
@@ -121,8 +123,10 @@ theorem history_multi {cfg : Cfg} (hc : cfg.plain = true) (hb : cfg.bareBypass =
           have := hop.2
           simp [h1, h2] at this
           exact this
-        obtain ⟨s', hrun, hg, _⟩ := good_stop_good hc hH hreset g hop.1.1.2 hop.1.2 hfit'
-        refine ⟨s', hrun, ?_⟩
+        have hff' : st.started = true → flushFits cfg st = true := by
+          intro h1; have := hop.1.2; simpa [h1] using this
+        obtain ⟨s', hrun, hg, hbuf', _⟩ := good_stop_good hc hH hflush hreset g hbuf hff' hfit'
+        refine ⟨s', hrun, ?_, hbuf'⟩
         simp only [viewStepM, if_true]
         exact hg
       · simp only [hstop, if_false, Bool.and_eq_true] at hop
@@ -132,9 +136,9 @@ theorem history_multi {cfg : Cfg} (hc : cfg.plain = true) (hb : cfg.bareBypass =
         have hfit' : redraws cfg st op = true → (shown cfg (step cfg noFault st op).st).length ≤ cfg.height := by
           intro h; simp [h] at hfit; exact hfit
         obtain ⟨s', hrun, hg⟩ := good_step hc hb hH g op hstop happ herr' hfit'
-        exact ⟨s', hrun, by simpa [viewStepM, hstop] using hg⟩
-    obtain ⟨s', hrun, hg⟩ := hstep
-    obtain ⟨hgood, hstate, habove⟩ := ih _ _ _ hg hwfr
+        exact ⟨s', hrun, by simpa [viewStepM, hstop] using hg, bufOk_step cfg noFault st op hstop herr' hbuf⟩
+    obtain ⟨s', hrun, hg, hbuf'⟩ := hstep
+    obtain ⟨hgood, hstate, habove⟩ := ih _ _ _ hg hbuf' hwfr
     refine ⟨?_, ?_, ⟨hrun.2, by rw [hrun.1]; exact habove⟩⟩
     · rw [run_cons_out, replay_append, hrun.1]
       simpa [specRunM] using hgood
@@ -145,5 +149,8 @@ theorem history_multi {cfg : Cfg} (hc : cfg.plain = true) (hb : cfg.bareBypass =
 theorem good_init (cfg : Cfg) (ov : Overflow) (r0 : Frame) (hH : 1 ≤ cfg.height) :
     Good cfg (initSt ov r0) {} Screen.init := by
   refine ⟨⟨0, ⟨by simp [Screen.init, region], by simp [Screen.init, region], by simp [Screen.init, region]⟩, by simp [region]; exact hH⟩, rfl, rfl, fun _ => ⟨rfl, rfl⟩⟩
+
+theorem bufOk_init (ov : Overflow) (r0 : Frame) : BufOk (initSt ov r0) := by
+  intro e _; cases e <;> rfl
 
 end RichModel.Live
